@@ -40,6 +40,7 @@ def obligations(tier):
         if tier == "thorough":
             obs.append({"name": "%s/twostep" % sched, "fn": "ob_ltf", "params": {"sched": sched, "part": "twostep"}, "timeout": 600, "weight": 8})
         obs.append({"name": "%s/regime" % sched, "fn": "ob_ltf", "params": {"sched": sched, "part": "regime"}, "timeout": to, "weight": 4})
+        obs.append({"name": "%s/regime-after-prior-plan" % sched, "fn": "ob_ltf", "params": {"sched": sched, "part": "regime", "prior": True}, "timeout": to, "weight": 4, "fork": True, "max_paths": 32})
     split(obs, "vec/step", "ob_vec", {"part": "step"}, G, timeout=to, weight=5)
     if tier == "thorough":
         obs.append({"name": "vec/twostep", "fn": "ob_vec", "params": {"part": "twostep"}, "timeout": 600, "weight": 8})
